@@ -111,16 +111,25 @@ def ofNat (n : Nat) : Json := .num n
 /-- an unsigned integer of `bits` bits -/
 def toNatBits (bits : Nat) : Json → Option Nat
   | .num i => if 0 ≤ i ∧ i < 2 ^ bits then some i.toNat else none
+  | .null => some 0
   | _ => none
 
 def toBool : Json → Option Bool
   | .bool b => some b
+  | .null => some false
   | _ => none
 
 def ofHex (b : List UInt8) : Json := .str (hexEnc b)
 
 /-- a fixed-size hex identifier (Hash256, Signature, …: `unmarshalHex`) -/
 def toHex (n : Nat) : Json → Option (List UInt8)
+  | .str s => unmarshalHex n s
+  | .null => some (List.replicate n 0)
+  | _ => none
+
+/-- a hex value that Go first reads into a `string` and then decodes with a length check
+    (SatisfiedPolicy preimages): null reads as "" and fails the length check -/
+def toHexStrict (n : Nat) : Json → Option (List UInt8)
   | .str s => unmarshalHex n s
   | _ => none
 
@@ -130,6 +139,7 @@ def ofCurrency (c : Nat) : Json := .str (natToDec c)
 
 def toCurrency : Json → Option Nat
   | .str s => parseUint 128 s
+  | .null => some 0
   | _ => none
 
 /-- a slice: `none` = nil = JSON null -/
@@ -160,6 +170,9 @@ end Json
 
 open Json
 
+/-! JSON `null` read into a non-pointer Go value leaves it at its zero value (for a type with
+    its own UnmarshalJSON the method is called with `null`; those are noted where they differ). -/
+
 /-! ## types.ChainIndex (MarshalJSON hides MarshalText: plain object) -/
 
 def ciToTree (ci : ChainIndex) : Json :=
@@ -170,6 +183,7 @@ def ciOfTree : Json → Option ChainIndex
     match fieldOr fs (key! "height") 0 (toNatBits 64), fieldOr fs (key! "id") (List.replicate 32 0) (toHex 32) with
     | some h, some id => some ⟨h, id⟩
     | _, _ => none
+  | .null => some ⟨0, List.replicate 32 0⟩
   | _ => none
 
 /-! ## consensus.Work: a JSON string with the decimal value -/
@@ -186,11 +200,12 @@ def workOfTree : Json → Option Nat
 
 def versionToTree (a b c : Nat) : Json := .str (versionText a b c)
 
-/-- string form, or the legacy `[a,b,c]` array -/
+/-- string form, or the legacy array decoded into a `[3]uint8` (missing elements are zero,
+    surplus elements must still be valid JSON but are dropped) -/
 def versionOfTree : Json → Option (Nat × Nat × Nat)
   | .str s => parseVersion s
-  | .arr [x, y, z] =>
-    match toNatBits 8 x, toNatBits 8 y, toNatBits 8 z with
+  | .arr l =>
+    match toNatBits 8 (l.getD 0 .null), toNatBits 8 (l.getD 1 .null), toNatBits 8 (l.getD 2 .null) with
     | some a, some b, some c => some (a, b, c)
     | _, _, _ => none
   | _ => none
@@ -217,6 +232,7 @@ def accOfTree {H : Type} (zero : H) (decH : Json → Option H) : Json → Option
       if roots.length ≠ (occupied n).length then none
       else some (n, assignTrees zero (occupied n) roots)
     | _, _ => none
+  | .null => some (0, fun _ => zero)
   | _ => none
 
 /-! ## types.StorageProof: the 64-byte leaf travels as a hex string -/
@@ -251,6 +267,7 @@ def ukToTree (hi : Nat → Bool) (k : UnlockKey) : Json := .str (ukText hi k)
 
 def ukOfTree : Json → Option UnlockKey
   | .str s => parseUk 16 s
+  | .null => some ⟨List.replicate 16 0, []⟩
   | _ => none
 
 def keysToTree (hi : Nat → Bool) : List UnlockKey → Json
@@ -274,6 +291,7 @@ def ucOfFields (fs : List (Txt × Json)) : Option (Nat × List UnlockKey × Nat)
 
 def ucOfTree : Json → Option (Nat × List UnlockKey × Nat)
   | .obj uf => ucOfFields uf
+  | .null => some (0, [], 0)
   | _ => none
 
 section
@@ -305,10 +323,12 @@ def policyBody (sub : List Json → Option PolicyList) (typ : Txt) (body : Json)
   else if typ = kwAfter then
     match body with
     | .num t => if -(2 ^ 63 : Int) ≤ t ∧ t < 2 ^ 63 then some (.after t) else none
+    | .null => some (.after 0)
     | _ => none
   else if typ = kwPk then
     match body with
     | .str s => (parsePk Gen.FactsText.pkAlgBytes 32 s).map .pk
+    | .null => some (.pk (List.replicate 32 0))
     | _ => none
   else if typ = kwH then (toHex 32 body).map .hash
   else if typ = kwThresh then
@@ -319,14 +339,17 @@ def policyBody (sub : List Json → Option PolicyList) (typ : Txt) (body : Json)
       | some n, some .null => some (.thresh n .nil)
       | some n, some (.arr l) => (sub l).map (.thresh n)
       | _, _ => none
+    | .null => some (.thresh 0 .nil)
     | _ => none
   else if typ = kwOpaque then
     match body with
     | .str s => (parseAddrH Hh 32 6 s).map .opaque
+    | .null => some (.opaque (List.replicate 32 0))
     | _ => none
   else if typ = kwUc then
     match body with
     | .obj uf => (ucOfFields uf).map (fun (tl, ks, sg) => .uc tl ks sg)
+    | .null => some (.uc 0 [] 0)
     | _ => none
   else none
 
@@ -336,7 +359,11 @@ mutual
     | 0, _ => none
     | f + 1, .obj fs =>
       match getF (key! "type") fs with
-      | some (.str typ) => policyBody Hh (policyListOfTree f) typ ((getF (key! "policy") fs).getD .null)
+      | some (.str typ) =>
+        -- `policy` is a json.RawMessage: absent, it is empty and cannot be decoded (null can)
+        match getF (key! "policy") fs with
+        | some body => policyBody Hh (policyListOfTree f) typ body
+        | none => none
       | _ => none
     | _ + 1, _ => none
   def policyListOfTree : Nat → List Json → Option PolicyList
@@ -366,7 +393,7 @@ def satisfiedOfTree (fuel : Nat) : Json → Option SatisfiedV
   | .obj fs =>
     match (getF (key! "policy") fs).bind (policyOfTree Hh fuel),
           fieldOr fs (key! "signatures") [] (fun j => (toSlice (toHex 64) j).map (·.getD [])),
-          fieldOr fs (key! "preimages") [] (fun j => (toSlice (toHex 32) j).map (·.getD [])) with
+          fieldOr fs (key! "preimages") [] (fun j => (toSlice (toHexStrict 32) j).map (·.getD [])) with
     | some p, some sigs, some pre => some ⟨p, sigs, pre⟩
     | _, _, _ => none
   | _ => none
@@ -407,6 +434,7 @@ def outputToTree (o : OutputV) : Json := .obj (outputFields Hh o)
 
 def addrOfTree : Json → Option (List UInt8)
   | .str s => parseAddrH Hh 32 6 s
+  | .null => some (List.replicate 32 0)
   | _ => none
 
 def outputOfFields (fs : List (Txt × Json)) : Option OutputV :=
@@ -416,6 +444,7 @@ def outputOfFields (fs : List (Txt × Json)) : Option OutputV :=
 
 def outputOfTree : Json → Option OutputV
   | .obj fs => outputOfFields Hh fs
+  | .null => some ⟨0, List.replicate 32 0⟩
   | _ => none
 
 def revisionToTree (r : RevisionV) : Json :=
@@ -443,6 +472,7 @@ def revisionOfTree : Json → Option RevisionV
     | some pid, some (tl, ks, sg), some fsz, some root, some ws, some we, some vo, some mo, some uh, some rn =>
       some ⟨pid, tl, ks, sg, fsz, root, ws, we, payoutSentinel, vo, mo, uh, rn⟩
     | _, _, _, _, _, _, _, _, _, _ => none
+  | .null => some ⟨List.replicate 32 0, 0, [], 0, 0, List.replicate 32 0, 0, 0, payoutSentinel, none, none, List.replicate 32 0, 0⟩
   | _ => none
 
 /-! ## SiacoinInput / SiafundInput: an extra "address" field is written and ignored on input -/
@@ -465,6 +495,7 @@ def inputOfTree : Json → Option InputV
           fieldOr fs (key! "unlockConditions") (0, [], 0) ucOfTree with
     | some pid, some (tl, ks, sg) => some ⟨pid, tl, ks, sg⟩
     | _, _ => none
+  | .null => some ⟨List.replicate 32 0, 0, [], 0⟩
   | _ => none
 
 end
